@@ -1,4 +1,4 @@
-import CalicoVerif.Proofs.C30Tier
+import CalicoVerif.Proofs.C30FlatTier
 /-!
 C30 — Windows rule flattening preserves policy verdicts for supported rules.
 Property theorems (helper lemmas live in `CalicoVerif.Proofs.C30*`).
@@ -121,5 +121,65 @@ theorem hns_verdict_false_service_protocol :
       simp only [List.mem_singleton] at hr; subst hr
       exact ⟨Or.inl rfl, rfl, rfl, rfl, rfl, rfl, by decide, by decide, by decide, by decide⟩,
     by decide, by decide⟩
+
+
+/-! ## Multi-tier flattening (flattener.go) -/
+
+/-- combinePorts with a port-free side never changes the other side (and never panics). -/
+theorem combinePorts_portfree (b : List PortRange) : combinePorts [] b = some b := combinePorts_nil b
+
+/-- FINDING (crash).  Two port lists whose intersection contains the largest port of both:
+combinePorts panics ("bitset said no end of range").  Here: a `pass` rule on port 80 combined with a
+next-tier rule on port 80. -/
+theorem combinePorts_same_max_panics : combinePorts [⟨80, 80⟩] [⟨80, 80⟩] = none := by decide
+
+example : combinePorts [⟨20, 63⟩] [⟨30, 63⟩, ⟨5, 5⟩] = none := by decide
+
+/-- FINDING (fail-open).  Disjoint port lists: the result is `[]` = "" = ANY port, with no error
+(the code tests the bitset's capacity `Len()`, which is never 0, instead of an empty intersection). -/
+theorem combinePorts_disjoint_is_any : combinePorts [⟨20, 20⟩] [⟨30, 31⟩] = some [] := by decide
+
+/-- … and when they overlap properly the result is the exact intersection as maximal runs. -/
+example : combinePorts [⟨1, 2⟩, ⟨10, 15⟩] [⟨2, 2⟩, ⟨12, 16⟩, ⟨55, 55⟩] = some [⟨2, 2⟩, ⟨12, 15⟩] := by decide
+
+/-- The disjoint-ports defect at the level of verdicts: tier 1 = "pass tcp dport 20, else drop",
+tier 2 = "allow tcp dport 30, else drop".  Every TCP packet to port 22 is dropped by tier 1, but the
+flattened rule list allows it. -/
+theorem flatten_false_disjoint_ports :
+    ∃ (t1 t2 : List HRule) (l : List HRule) (p : Pkt),
+      flattenTiers [t1, t2] = some l ∧
+      hnsActions (rewritePriorities l policyRuleMaxPriority) p = [.allow] ∧ mvH p [t1, t2] = some .block :=
+  ⟨[{ action := .pass, inbound := true, proto := 6, lPorts := [⟨20, 20⟩], prio := 1000 }, eotRule true true 1001],
+   [{ action := .allow, inbound := true, proto := 6, lPorts := [⟨30, 30⟩], prio := 1000 }, eotRule true true 1001],
+   [{ action := .allow, inbound := true, proto := 6, prio := 1000 },
+    { action := .block, inbound := true, proto := 6, lPorts := [⟨20, 20⟩], prio := 1001 }, eotRule true true 1001],
+   ⟨6, 1, 1000, 2, 22⟩, by decide, by decide, by decide⟩
+
+/-- MULTI-TIER THEOREM (partial: pass rules carry no port criteria — see the two findings above).
+For tiers generated by GetPolicySetRules from supported rules: flattenTiers does not panic, and the
+flattened list with rewritten priorities, evaluated by HNS with any tie-break, gives exactly the
+verdict of evaluating the tiers in order (a pass continues in the next tier, a pass in the last tier
+is a drop). -/
+theorem flatten_verdict_partial (s : IPSets) (hs : s.wf) (hipp : s.ipportOK) (hv : s.ipportV4)
+    (ts : List TierSpec) (hne : ts ≠ [])
+    (hsup : ∀ t ∈ ts, ∀ x ∈ t.1, x.2.supported) (hpf : ∀ t ∈ ts, ∀ x ∈ t.1, x.2.passPortFree)
+    (n : Nat) (hn : 0 < n) (d : Bool) (limit : Nat) (p : Pkt) :
+    ∃ l, flattenTiers (ts.map (genTier s n d)) = some l ∧
+      hnsActions (rewritePriorities l limit) p ≠ [] ∧
+      ∀ a ∈ hnsActions (rewritePriorities l limit) p,
+        a = multiVerdict s d p (ts.map fun t => (t.1.map (·.2), t.2)) := by
+  have htiers : ∀ t ∈ ts.map (genTier s n d), TierOK d t ∧ Total t := by
+    intro t ht
+    obtain ⟨x, hx, rfl⟩ := List.mem_map.1 ht
+    refine ⟨tierOK_generated s hs hv n hn d x.2 x.1 (hpf x hx), ?_⟩
+    intro q
+    rw [show firstAction (genTier s n d x) q = _ from tier_first s hs hipp n hn d x.2 q x.1 (hsup x hx)]
+    rfl
+  obtain ⟨l, hl, hlf⟩ := flattenTiers_sem d (ts.map (genTier s n d)) (by simpa using hne) htiers
+  refine ⟨l, hl, ?_⟩
+  obtain ⟨hg, hfa⟩ := rewritePriorities_sem l limit p
+  have : firstAction (rewritePriorities l limit) p = some (multiVerdict s d p (ts.map fun t => (t.1.map (·.2), t.2))) := by
+    rw [hfa, hlf p, mvH_generated s hs hipp n hn d p ts hne hsup]
+  exact first_match_decides _ hg p _ this
 
 end CalicoVerif.C30
